@@ -31,9 +31,10 @@ func (w *World) lemmaVC(lm *Lemma) (vc *VC, err error) {
 		if typ != nil {
 			if sl, ok := typ.Underlying().(*types.Slice); ok {
 				arr := vc.fresh(p.Name+".arr", "(Array Int "+vc.d.sortOf(sl.Elem())+")")
-				off := vc.fresh(p.Name+".off", "Int")
+				// a lemma is about abstract sequences: the offset into the backing array is irrelevant
+				off := "0"
 				ln := vc.fresh(p.Name+".len", "Int")
-				vc.assume(fmt.Sprintf("(and (>= %s 0) (>= %s 0))", off, ln))
+				vc.assume(fmt.Sprintf("(>= %s 0)", ln))
 				if _, ok := rangeOf(sl.Elem()); ok {
 					vc.assume(fmt.Sprintf("(forall ((i!r Int)) (! %s :pattern ((select %s i!r))))", vc.d.rangeAssume("(select "+arr+" i!r)", sl.Elem(), "", 0), arr))
 				}
